@@ -1,4 +1,444 @@
-/-! Search: executable models (no Mathlib imports). -/
+/-!
+Search: bookkeeping skeletons of the nine search heuristics of C19 (no Mathlib imports).
+
+Every skeleton is a deterministic state machine over the *event stream* of one run of the real
+solver:
+
+* `val k`  – the k-th value returned by the (sign-adjusted) objective, i.e. what the k-th call of
+  `Evaluator.__call__` returned (`k = 0` is the first call);
+* `coin k` – whatever the RNG / `exp` / a user supplied acceptance callback decided for the
+  candidate whose value is `val k` (only consulted where the code consults them);
+* for tabu search the list of candidate moves of every iteration, in the order in which the
+  shuffled candidate list was evaluated.
+
+The RNG, `math.exp`, temperatures, positions, velocities and the user callbacks never appear:
+the theorems quantify over *all* `val`, `coin` and move lists.  What is modelled is each
+solver's own rule for `best_solution, best_obj`, `current`, populations / simplex and its
+evaluation counter, statement by statement (see the Python file named above each section).
+Solutions are identified by the index of the evaluation that produced their value.
+-/
 namespace Solvor.Search
+
+/-! ### Common bookkeeping core: `best_obj`, the evaluation that produced it, `evaluate.evals` -/
+
+structure Core where
+  best : Rat
+  bestIdx : Nat
+  evals : Nat
+  deriving Repr, BEq, DecidableEq, Inhabited
+
+/-- State after the very first objective call (`obj = evaluate(initial)`). -/
+def Core.init (val : Nat → Rat) : Core := ⟨val 0, 0, 1⟩
+
+/-- One more evaluation was made; `best` untouched. -/
+def Core.skip (c : Core) : Core := { c with evals := c.evals + 1 }
+
+/-- One more evaluation was made and recorded as the new best. -/
+def Core.take (c : Core) (v : Rat) : Core := ⟨v, c.evals, c.evals + 1⟩
+
+/-- `y = evaluate(x); if y < best_obj: best_solution, best_obj = x, y`. -/
+def Core.obs (val : Nat → Rat) (c : Core) : Core :=
+  if val c.evals < c.best then c.take (val c.evals) else c.skip
+
+/-- `n`-fold iteration of a step function (the `for` loops). -/
+def iter {σ : Type} (f : σ → σ) : Nat → σ → σ
+  | 0, s => s
+  | n + 1, s => iter f n (f s)
+
+/-! ### `Evaluator` (solvor/utils/helpers.py) -/
+
+/-- `self.sign = 1 if minimize else -1`. -/
+def sgn (minimize : Bool) : Rat := if minimize then 1 else -1
+
+/-- `Evaluator.__call__`: the internal value of the k-th call is `sign * objective_fn(sol_k)`. -/
+def internal (minimize : Bool) (f : Nat → Rat) : Nat → Rat := fun k => sgn minimize * f k
+
+/-- `Evaluator.to_user`. -/
+def toUser (minimize : Bool) (x : Rat) : Rat := x * sgn minimize
+
+/-- What `Result` reports: objective (user's sign), which evaluated candidate is the returned
+solution, `evaluations`. -/
+structure Outcome where
+  objective : Rat
+  solIdx : Nat
+  evaluations : Nat
+  deriving Repr, BEq, DecidableEq, Inhabited
+
+def Core.outcome (minimize : Bool) (c : Core) : Outcome :=
+  ⟨toUser minimize c.best, c.bestIdx, c.evals⟩
+
+/-- The mirror image of an outcome (objective negated, same solution, same count). -/
+def Outcome.neg (o : Outcome) : Outcome := { o with objective := -o.objective }
+
+/-! ### Acceptance rules of `lns`/`alns` (solvor/lns.py: `_get_accept_fn`) -/
+
+inductive Accept where
+  | improving   -- `_accept_improving`: new < current
+  | all         -- `_accept_all`
+  | sa          -- `_make_sa_accept`: new < current, else an RNG coin (false when temp < 1e-10)
+  | custom      -- a user callable: its answer is the coin
+  deriving Repr, BEq, DecidableEq, Inhabited
+
+def Accept.says (a : Accept) (cur v : Rat) (coin : Bool) : Bool :=
+  match a with
+  | .improving => decide (v < cur)
+  | .all => true
+  | .sa => decide (v < cur) || coin
+  | .custom => coin
+
+/-! ### anneal (solvor/anneal.py) -/
+
+structure AnnealSt where
+  core : Core
+  cur : Rat
+  curIdx : Nat
+  deriving Repr, BEq, DecidableEq, Inhabited
+
+def annealInit (val : Nat → Rat) : AnnealSt := ⟨Core.init val, val 0, 0⟩
+
+/-- One loop body: `delta < 0 or rng.random() < exp(-delta/temperature)`; best is looked at only
+inside the accepted branch. -/
+def annealStep (val : Nat → Rat) (coin : Nat → Bool) (s : AnnealSt) : AnnealSt :=
+  let k := s.core.evals
+  let v := val k
+  if v - s.cur < 0 ∨ coin k = true then
+    ⟨if v < s.core.best then s.core.take v else s.core.skip, v, k⟩
+  else
+    ⟨s.core.skip, s.cur, s.curIdx⟩
+
+/-- `iters` = number of loop bodies executed (cooling cut-off and `on_progress` are abstracted). -/
+def annealRun (val : Nat → Rat) (coin : Nat → Bool) (iters : Nat) : AnnealSt :=
+  iter (annealStep val coin) iters (annealInit val)
+
+/-! ### Loop control shared by tabu_search / lns / alns -/
+
+/-- `if report_progress(...): return …` at iteration `stopAt` (0 = never), then
+`if iteration - best_iter >= max_no_improve: break`. -/
+def loopDone (iteration bestIter maxNoImprove stopAt : Nat) : Bool :=
+  (stopAt != 0 && iteration == stopAt) || decide (iteration - bestIter ≥ maxNoImprove)
+
+/-! ### tabu_search (solvor/tabu.py) -/
+
+structure TabuSt where
+  core : Core
+  cur : Rat
+  curIdx : Nat
+  bestIter : Nat
+  iteration : Nat
+  tabuList : List Nat    -- the deque, oldest first
+  tabuSet : List Nat     -- the set (no duplicates)
+  done : Bool
+  deriving Repr, BEq, DecidableEq, Inhabited
+
+def tabuInit (val : Nat → Rat) : TabuSt := ⟨Core.init val, val 0, 0, 0, 0, [], [], false⟩
+
+/-- The inner `for move, neighbor in candidates` loop.  `bn = (best_neighbor_obj, index of
+best_neighbor, best_move)`; `none` stands for `float("inf")`. -/
+def tabuScan (val : Nat → Rat) (best : Rat) (tabuSet : List Nat) :
+    List Nat → Nat → Option (Rat × Nat × Nat) → Nat × Option (Rat × Nat × Nat)
+  | [], e, bn => (e, bn)
+  | m :: ms, e, bn =>
+    let v := val e
+    if tabuSet.contains m = true ∧ best ≤ v then tabuScan val best tabuSet ms (e + 1) bn
+    else match bn with
+      | none => tabuScan val best tabuSet ms (e + 1) (some (v, e, m))
+      | some (b, i, mv) =>
+        if v < b then tabuScan val best tabuSet ms (e + 1) (some (v, e, m))
+        else tabuScan val best tabuSet ms (e + 1) (some (b, i, mv))
+
+/-- One iteration with candidate moves `ms` (already shuffled).  `cooldown ≥ 1`. -/
+def tabuStep (val : Nat → Rat) (cooldown maxNoImprove stopAt : Nat) (s : TabuSt) (ms : List Nat) :
+    TabuSt :=
+  if s.done then s else
+  let iteration := s.iteration + 1
+  if ms.isEmpty then { s with iteration := iteration, done := true } else
+  match tabuScan val s.core.best s.tabuSet ms s.core.evals none with
+  | (e, none) => { s with core := { s.core with evals := e }, iteration := iteration, done := true }
+  | (e, some (b, i, mv)) =>
+    let full := s.tabuList.length == cooldown
+    let set1 := if full then s.tabuSet.erase (s.tabuList.headD 0) else s.tabuSet
+    let list1 := (if full then s.tabuList.drop 1 else s.tabuList) ++ [mv]
+    let set2 := if set1.contains mv then set1 else mv :: set1
+    let improved := decide (b < s.core.best)
+    let core : Core := if improved then ⟨b, i, e⟩ else { s.core with evals := e }
+    let bestIter := if improved then iteration else s.bestIter
+    ⟨core, b, i, bestIter, iteration, list1, set2, loopDone iteration bestIter maxNoImprove stopAt⟩
+
+/-- `cands` = the candidate move lists of the iterations that were started (at most `max_iter`). -/
+def tabuRun (val : Nat → Rat) (cooldown maxNoImprove stopAt : Nat) (cands : List (List Nat)) : TabuSt :=
+  cands.foldl (tabuStep val cooldown maxNoImprove stopAt) (tabuInit val)
+
+/-! ### lns / alns (solvor/lns.py) -/
+
+structure LnsSt where
+  core : Core
+  cur : Rat
+  curIdx : Nat
+  bestIter : Nat
+  iteration : Nat
+  done : Bool
+  deriving Repr, BEq, DecidableEq, Inhabited
+
+def lnsInit (val : Nat → Rat) : LnsSt := ⟨Core.init val, val 0, 0, 0, 0, false⟩
+
+/-- `lns` as it is in the unchanged tree: best is looked at only when the acceptance rule said yes. -/
+def lnsStepOrig (val : Nat → Rat) (coin : Nat → Bool) (acc : Accept) (maxNoImprove stopAt : Nat)
+    (s : LnsSt) : LnsSt :=
+  if s.done then s else
+  let iteration := s.iteration + 1
+  let k := s.core.evals
+  let v := val k
+  if acc.says s.cur v (coin k) then
+    let improved := decide (v < s.core.best)
+    let bestIter := if improved then iteration else s.bestIter
+    ⟨if improved then s.core.take v else s.core.skip, v, k, bestIter, iteration,
+      loopDone iteration bestIter maxNoImprove stopAt⟩
+  else
+    ⟨s.core.skip, s.cur, s.curIdx, s.bestIter, iteration,
+      loopDone iteration s.bestIter maxNoImprove stopAt⟩
+
+/-- `lns` with the proposed repair (C19_lns_best): the incumbent is updated whenever the candidate
+beats it, whatever the acceptance rule answered. -/
+def lnsStep (val : Nat → Rat) (coin : Nat → Bool) (acc : Accept) (maxNoImprove stopAt : Nat)
+    (s : LnsSt) : LnsSt :=
+  if s.done then s else
+  let iteration := s.iteration + 1
+  let k := s.core.evals
+  let v := val k
+  let a := acc.says s.cur v (coin k)
+  let improved := decide (v < s.core.best)
+  let bestIter := if improved then iteration else s.bestIter
+  ⟨if improved then s.core.take v else s.core.skip,
+    if a then v else s.cur, if a then k else s.curIdx, bestIter, iteration,
+    loopDone iteration bestIter maxNoImprove stopAt⟩
+
+def lnsRun (orig : Bool) (val : Nat → Rat) (coin : Nat → Bool) (acc : Accept)
+    (maxIter maxNoImprove stopAt : Nat) : LnsSt :=
+  iter (if orig then lnsStepOrig val coin acc maxNoImprove stopAt
+        else lnsStep val coin acc maxNoImprove stopAt) maxIter (lnsInit val)
+
+/-- `alns`: new global best / better than current / acceptance rule, in this order. -/
+def alnsStep (val : Nat → Rat) (coin : Nat → Bool) (acc : Accept) (maxNoImprove stopAt : Nat)
+    (s : LnsSt) : LnsSt :=
+  if s.done then s else
+  let iteration := s.iteration + 1
+  let k := s.core.evals
+  let v := val k
+  if v < s.core.best then
+    ⟨s.core.take v, v, k, iteration, iteration, loopDone iteration iteration maxNoImprove stopAt⟩
+  else if v < s.cur then
+    ⟨s.core.skip, v, k, s.bestIter, iteration, loopDone iteration s.bestIter maxNoImprove stopAt⟩
+  else if acc.says s.cur v (coin k) then
+    ⟨s.core.skip, v, k, s.bestIter, iteration, loopDone iteration s.bestIter maxNoImprove stopAt⟩
+  else
+    ⟨s.core.skip, s.cur, s.curIdx, s.bestIter, iteration,
+      loopDone iteration s.bestIter maxNoImprove stopAt⟩
+
+def alnsRun (val : Nat → Rat) (coin : Nat → Bool) (acc : Accept)
+    (maxIter maxNoImprove stopAt : Nat) : LnsSt :=
+  iter (alnsStep val coin acc maxNoImprove stopAt) maxIter (lnsInit val)
+
+/-! ### Populations: individuals and the stable sort (`sorted(..., key=fitness)`) -/
+
+/-- An evaluated candidate: its (internal) value and the index of the evaluation. -/
+structure Ind where
+  fit : Rat
+  idx : Nat
+  deriving Repr, BEq, DecidableEq, Inhabited
+
+/-- Insert after every element whose key is `≤` the new key. -/
+def insertStable (x : Ind) : List Ind → List Ind
+  | [] => [x]
+  | y :: ys => if x.fit < y.fit then x :: y :: ys else y :: insertStable x ys
+
+/-- Stable sort by `fit` (the unique stable ordering, hence equal to CPython's `sorted`). -/
+def sortStable (l : List Ind) : List Ind := l.foldl (fun acc x => insertStable x acc) []
+
+/-- `[Ind(val e, e), …, Ind(val (e+n-1), e+n-1)]`. -/
+def evalMany (val : Nat → Rat) (e : Nat) : Nat → List Ind
+  | 0 => []
+  | n + 1 => ⟨val e, e⟩ :: evalMany val (e + 1) n
+
+/-- `min(range(len), key=…)`: first index attaining the least value. -/
+def argminFirst : List Ind → Option Ind
+  | [] => none
+  | x :: xs => match argminFirst xs with
+    | none => some x
+    | some m => if m.fit < x.fit then some m else some x
+
+/-! ### evolve (solvor/genetic.py) -/
+
+structure EvoSt where
+  core : Core
+  pop : List Ind
+  deriving Repr, BEq, DecidableEq, Inhabited
+
+def evoInit (val : Nat → Rat) (popSize : Nat) : EvoSt :=
+  let pop := sortStable (evalMany val 0 popSize)
+  match pop with
+  | [] => ⟨⟨0, 0, popSize⟩, []⟩     -- `pop[0]` raises IndexError on an empty population
+  | h :: _ => ⟨⟨h.fit, h.idx, popSize⟩, pop⟩
+
+/-- One generation: elites, then children evaluated one by one until the population is full,
+`sorted(new_pop)[:pop_size]`, best updated from `pop[0]`. -/
+def evoStep (val : Nat → Rat) (popSize eliteSize : Nat) (s : EvoSt) : EvoSt :=
+  let elites := s.pop.take eliteSize
+  let nChildren := popSize - elites.length
+  let newPop := elites ++ evalMany val s.core.evals nChildren
+  let pop := (sortStable newPop).take popSize
+  let e := s.core.evals + nChildren
+  match pop with
+  | [] => ⟨{ s.core with evals := e }, pop⟩
+  | h :: _ =>
+    ⟨if h.fit < s.core.best then ⟨h.fit, h.idx, e⟩ else { s.core with evals := e }, pop⟩
+
+def evoRun (val : Nat → Rat) (popSize eliteSize gens : Nat) : EvoSt :=
+  iter (evoStep val popSize eliteSize) gens (evoInit val popSize)
+
+/-! ### differential_evolution / particle_swarm / bayesian_opt -/
+
+/-- Evaluate the `n` start points and take the first arg-min (`min(range(n), key=…)`). -/
+def startCore (val : Nat → Rat) (n : Nat) : Core := iter (Core.obs val) (n - 1) (Core.init val)
+
+/-- `[val 0, …, val (n-1)]`. -/
+def startFits (val : Nat → Rat) (n : Nat) : List Rat := (List.range n).map val
+
+/-- DE, one generation over the fitness list: `if trial_fit <= fitness[i]:` replace, and inside
+it `if trial_fit < best_obj:` new best. -/
+def deSweep (val : Nat → Rat) : List Rat → Core → List Rat × Core
+  | [], c => ([], c)
+  | f :: fs, c =>
+    let v := val c.evals
+    if v ≤ f then
+      let r := deSweep val fs (if v < c.best then c.take v else c.skip)
+      (v :: r.1, r.2)
+    else
+      let r := deSweep val fs c.skip
+      (f :: r.1, r.2)
+
+/-- PSO, one iteration over the personal bests: `if fitness[i] < p_best_fit[i]:` and inside it
+`if fitness[i] < best_obj:`. -/
+def psoSweep (val : Nat → Rat) : List Rat → Core → List Rat × Core
+  | [], c => ([], c)
+  | f :: fs, c =>
+    let v := val c.evals
+    if v < f then
+      let r := psoSweep val fs (if v < c.best then c.take v else c.skip)
+      (v :: r.1, r.2)
+    else
+      let r := psoSweep val fs c.skip
+      (f :: r.1, r.2)
+
+structure PopSt where
+  core : Core
+  fits : List Rat
+  deriving Repr, BEq, DecidableEq, Inhabited
+
+def popInit (val : Nat → Rat) (n : Nat) : PopSt := ⟨startCore val n, startFits val n⟩
+
+def deStep (val : Nat → Rat) (s : PopSt) : PopSt :=
+  let r := deSweep val s.fits s.core; ⟨r.2, r.1⟩
+def psoStep (val : Nat → Rat) (s : PopSt) : PopSt :=
+  let r := psoSweep val s.fits s.core; ⟨r.2, r.1⟩
+
+/-- `gens` = generations completed (the variance cut-off and `on_progress` are abstracted). -/
+def deRun (val : Nat → Rat) (popSize gens : Nat) : PopSt := iter (deStep val) gens (popInit val popSize)
+def psoRun (val : Nat → Rat) (nParticles iters : Nat) : PopSt :=
+  iter (psoStep val) iters (popInit val nParticles)
+
+/-- bayesian_opt: `n_initial` random points, then one acquisition candidate per iteration of
+`range(n_initial, max_iter)`, each compared with `<`. -/
+def bayesRun (val : Nat → Rat) (nInitial iters : Nat) : Core :=
+  iter (Core.obs val) iters (startCore val nInitial)
+
+/-! ### nelder_mead (solvor/nelder_mead.py) -/
+
+structure NmSt where
+  simplex : List Ind      -- n+1 vertices (value, evaluation index)
+  evals : Nat
+  iteration : Nat
+  done : Bool
+  stopped : Bool          -- left through the `on_progress` return
+  deriving Repr, BEq, DecidableEq, Inhabited
+
+def ratAbs (x : Rat) : Rat := if x < 0 then -x else x
+
+/-- `simplex[n] = x`. -/
+def setLast (l : List Ind) (x : Ind) : List Ind := l.dropLast ++ [x]
+
+def nmInit (val : Nat → Rat) (n : Nat) : NmSt := ⟨evalMany val 0 (n + 1), n + 1, 0, false, false⟩
+
+/-- `_shrink`: vertex 0 stays, vertices 1..n are moved and re-evaluated in order. -/
+def nmShrink (val : Nat → Rat) (sorted : List Ind) (e : Nat) : List Ind :=
+  sorted.take 1 ++ evalMany val e (sorted.length - 1)
+
+/-- One loop body of `nelder_mead` for dimension `n ≥ 1`. -/
+def nmStep (val : Nat → Rat) (n : Nat) (tol : Rat) (stopAt : Nat) (s : NmSt) : NmSt :=
+  if s.done then s else
+  let iteration := s.iteration + 1
+  let sorted := sortStable s.simplex
+  let bestV := (sorted.headD default).fit
+  let worstV := (sorted.getD n default).fit
+  let secondV := (sorted.getD (n - 1) default).fit
+  if ratAbs (worstV - bestV) < tol then
+    { s with simplex := sorted, iteration := iteration, done := true }
+  else
+    let e := s.evals
+    let r := val e
+    let (simplex, e') :=
+      if bestV ≤ r ∧ r < secondV then (setLast sorted ⟨r, e⟩, e + 1)
+      else if r < bestV then
+        let x := val (e + 1)
+        if x < r then (setLast sorted ⟨x, e + 1⟩, e + 2) else (setLast sorted ⟨r, e⟩, e + 2)
+      else if r < worstV then
+        let c := val (e + 1)
+        if c ≤ r then (setLast sorted ⟨c, e + 1⟩, e + 2)
+        else (nmShrink val sorted (e + 2), e + 2 + n)
+      else
+        let c := val (e + 1)
+        if c < worstV then (setLast sorted ⟨c, e + 1⟩, e + 2)
+        else (nmShrink val sorted (e + 2), e + 2 + n)
+    let stop := stopAt != 0 && iteration == stopAt
+    ⟨simplex, e', iteration, stop, stop⟩
+
+def nmRun (val : Nat → Rat) (n : Nat) (tol : Rat) (maxIter stopAt : Nat) : NmSt :=
+  iter (nmStep val n tol stopAt) maxIter (nmInit val n)
+
+/-- The value `nelder_mead` reports.  `orig = true`: the unchanged tree, whose `on_progress` exit
+returns `simplex[0], values[0]` of the *unsorted* simplex; otherwise (and after the proposed
+repair C19_nm_stop) the first arg-min of the current simplex. -/
+def nmResult (orig : Bool) (s : NmSt) : Core :=
+  let pick := if orig && s.stopped then s.simplex.head? else argminFirst s.simplex
+  match pick with
+  | some b => ⟨b.fit, b.idx, s.evals⟩
+  | none => ⟨0, 0, s.evals⟩
+
+/-! ### Bounds (differential_evolution / particle_swarm / bayesian_opt: `clip`) -/
+
+/-- `[max(lo, min(hi, x[i])) for i, (lo, hi) in enumerate(bounds)]`. -/
+def clip : List (Rat × Rat) → List Rat → List Rat
+  | (lo, hi) :: bs, x :: xs => max lo (min hi x) :: clip bs xs
+  | _, _ => []
+
+/-- Verified checker: `x` has one coordinate per bound and each lies inside its interval. -/
+def inBounds : List (Rat × Rat) → List Rat → Bool
+  | [], [] => true
+  | (lo, hi) :: bs, x :: xs => decide (lo ≤ x) && decide (x ≤ hi) && inBounds bs xs
+  | _, _ => false
+
+/-- DE's binomial crossover: coordinate-wise choice between target and (clipped) mutant. -/
+def mix : List Bool → List Rat → List Rat → List Rat
+  | c :: cs, a :: as, b :: bs => (if c then b else a) :: mix cs as bs
+  | _, _, _ => []
+
+/-! ### Verified checker for the implementation's own answer (T-spec) -/
+
+/-- `objective` is what `Result.objective` holds, `fSol` the user's objective re-evaluated on
+`Result.solution`, `fs` every value the recording proxy saw (user's sign, start points included),
+`calls` the number of proxy calls. -/
+def checkResult (minimize : Bool) (fs : List Rat) (objective fSol : Rat) (evaluations calls : Nat) :
+    Bool :=
+  decide (objective = fSol) && fs.all (fun v => if minimize then decide (objective ≤ v) else decide (v ≤ objective))
+    && evaluations == calls
 
 end Solvor.Search
